@@ -493,8 +493,7 @@ def with_lens(rng, at, height=0.15):
     bulged) interface a-b towards the lens, B gets the path a-m-b around it (m: a two-edge vertex).  Returns the new tissue
     or None.  Both ends of the old interface then belong to the same three cells."""
     jc = at.jcells()
-    cand = [k for k, cs in at.E.items() if len(cs) == 2 and abs(at.PHI[k]) < 1e-12
-            and all(len(jc[j]) >= 3 for j in k)]
+    cand = [k for k, cs in at.E.items() if len(cs) == 2 and all(len(jc[j]) >= 3 for j in k)]
     if not cand:
         return None
     cand.sort(key=sorted)
